@@ -1,0 +1,80 @@
+//go:build verif
+
+// Contracts for package taskpool, read by /verif/govc (comment-only; compiled by nobody).
+package taskpool
+
+// ---- counter accounting (C19). The shared counter equals (live workers) + (units owed by threads). A thread "owes" a
+// unit from the moment it adds 1 to the counter until it subtracts it again or hands it to a worker it starts (the
+// worker gives it back when it exits). Capacity is recovered iff every function returns the units it took.
+// thread-local: gOwed units this thread has added and not yet returned / handed over;  gLastAdd value of its last add
+//@ ghost local TaskPool.gOwed : Int
+//@ ghost local TaskPool.gLastAdd : Int
+
+//@ fieldfunc taskpool.TaskPool.caller
+//@   params f
+//@   havoc
+//@   note runs the task (user code) behind a recover barrier; takes and returns no counter unit
+//@   ensures forall p *TaskPool :: p.maxConcurrent == old(p.maxConcurrent) && p.chQqueue == old(p.chQqueue) && p.chClose == old(p.chClose) && p.caller == old(p.caller)
+
+//@ func (*TaskPool).fork
+//@   props C19
+//@   safety index slice nil div assert panic make
+//@   requires tp.caller != nil && tp.gOwed >= 0
+//@   ensures handed: result ==> tp.gOwed == old(tp.gOwed)                                   // prop C19
+//@   ensures kept: !result ==> tp.gOwed == old(tp.gOwed) + 1                                // prop C19
+//@   assigns tp.gOwed, tp.gLastAdd, allocates
+//@   at before:AddInt64#1 assert one: arg_delta == 1                                        // prop C19
+//@   at call:AddInt64#1 ghost { tp.gOwed = tp.gOwed + 1; tp.gLastAdd = result }
+//@   at before:go#1 assert admit: tp.gLastAdd < tp.maxConcurrent && tp.gOwed >= 1           // prop C19
+//@   at go#1 ghost { tp.gOwed = tp.gOwed - 1 }
+
+// a worker starts owning the unit its creator handed over and returns it when it exits
+//@ func (*TaskPool).fork$1
+//@   props C19
+//@   safety index slice nil div assert panic make
+//@   requires tp != nil && tp.caller != nil
+//@   ensures returned: tp.gOwed == 0                                                        // prop C19
+//@   assigns everything, TaskPool.gOwed, TaskPool.gLastAdd
+//@   at entry ghost { tp.gOwed = 1 }
+//@   at before:AddInt64#1 assert minus: arg_delta == -1                                     // prop C19
+//@   at call:AddInt64#1 ghost { tp.gOwed = tp.gOwed - 1 }
+//@   loop 1
+//@     invariant tp != nil && tp.caller != nil && tp.gOwed == 1
+
+//@ func (*TaskPool).Go
+//@   props C19
+//@   safety index slice nil div assert panic make
+//@   requires tp.caller != nil && tp.gOwed >= 0
+//@   ensures balanced: tp.gOwed == old(tp.gOwed)                                            // prop C19
+//@   assigns tp.gOwed, tp.gLastAdd, allocates
+//@   at before:AddInt64#1 assert minus: arg_delta == -1                                     // prop C19
+//@   at call:AddInt64#1 ghost { tp.gOwed = tp.gOwed - 1 }
+
+// the dispatcher: owes nothing between two tasks
+//@ func New$3
+//@   props C19
+//@   safety index slice nil div assert panic make
+//@   requires tp != nil && tp.caller != nil && tp.gOwed == 0
+//@   assigns everything, TaskPool.gOwed, TaskPool.gLastAdd
+//@   at before:AddInt64#1 assert minus: arg_delta == -1                                     // prop C19
+//@   at call:AddInt64#1 ghost { tp.gOwed = tp.gOwed - 1 }
+//@   loop 1
+//@     invariant tp != nil && tp.caller != nil && tp.gOwed == 0                            // prop C19
+
+// the built-in caller: the task behind a recover barrier; no counter traffic
+//@ func New$1
+//@   props C19
+//@   safety index slice nil div assert panic make
+//@   assigns everything
+//@ func New$1$1
+//@   inline
+//@ func New
+//@   props C19
+//@   safety index slice nil div assert panic make
+//@   requires chQqueueSize >= 0
+//@   ensures wired: result != nil && (len(v) == 0 ==> result.caller != nil) && result.maxConcurrent == maxConcurrent - 1   // prop C19
+//@   assigns everything
+//@ func (*TaskPool).Call
+//@   props C19
+//@   requires tp.caller != nil
+//@   assigns everything
